@@ -457,8 +457,8 @@ func (m SmallMap) Delete(key Object) (Map, bool) {
 func (m SmallMap) Append(right Map) Map {
 	if right.Len() <= MaxSmallMap { // Maybe same keys, try to keep it a SmallMap
 		res := SmallMap{len: m.len}
-		var ires Map = res // a value like every other path (a *SmallMap is unknown to rest/range/keys/iteration).
 		copy(res.smallKV[:m.len], m.smallKV[:m.len])
+		var ires Map = res // a value like every other path (a *SmallMap is unknown to rest/range/keys/iteration).
 		for _, kv := range right.mapElements() {
 			ires = ires.Set(kv.Key, kv.Value)
 		}
